@@ -1077,6 +1077,9 @@ MUTANTS = [
       "            # The Jinja parser is recursive",
       "        except MemoryError:\n"
       "            # The Jinja parser is recursive"),
+    m('C10-backlog-wait-saved-negated', 'C10', ['R4'],
+      'mistral/workflow/commands.py',
+      "        d['wait'] = self.wait\n", "        d['wait'] = not self.wait\n"),
     # F36 put back
     m('C05-rerun-drops-triggered-by', 'C05', ['R9'], E + 'tasks.py',
       "            if triggered_by:\n                runtime_context["
@@ -1457,6 +1460,9 @@ REFACTORS = [
       "\n\n        if clause_publish:\n"
       "            if spec:\n                clause_publish.merge(spec)"
       "\n\n            return clause_publish"),
+    r('C10-ref-backlog-ctx-copied', 'C10', 'mistral/workflow/commands.py',
+      "            'ctx': self.ctx,\n",
+      "            'ctx': dict(self.ctx),\n"),
     r('C05-ref-cleanup-pops-triggered-by', 'C05', E + 'tasks.py',
       "            triggered_by = runtime_context.get('triggered_by')\n",
       "            triggered_by = runtime_context.pop('triggered_by', None)\n"),
